@@ -338,6 +338,8 @@ def run_case(case, info):
         return _run_selfintersect(case, info)
     C = Case(case, info)
     CTX.decide_timeout = 2000  # `unknown` feasibility is treated as feasible anyway; the ray-cast conditions are sqrt-heavy
+    # bounding-box min / max over s*v_i + t: the order of the vertices is implied by s > 0, so the if-then-else towers collapse to one branch
+    CTX.resolve_minmax = True
     V0, faces = _faces(case)
     s = sym("s")
     t = symarr("t", (3,))
